@@ -1,10 +1,16 @@
 package c16sim
 
 import (
+	"bytes"
 	"context"
+	"encoding/json"
 	"fmt"
 	"io"
+	"os"
+	"os/exec"
 	"runtime/debug"
+	"strings"
+	"syscall"
 	"time"
 )
 
@@ -18,8 +24,126 @@ type Hooks struct {
 	Multi MultiFunc // nil if the multiReadCloser sub-leg could not be built
 }
 
+// IsolateExec makes every execution happen in a process of its own (a child running this same test
+// binary on exactly one case). The command-line tool translates one input per process; a tree that
+// keeps the state of that translation in package-level variables of cmd/pql is correct as a tool, but
+// calling its run function many times in one process would carry that state from case to case. The
+// driver switches this on when it finds that the outcome of a case depends on what ran before it in
+// the same process (DESIGN.md §8 item 23).
+var IsolateExec bool
+
+// ExecOneEnv is the value of ZZSIM_CMD that makes the test binary execute one case from standard input.
+const ExecOneEnv = "@exec-one"
+
 // Execute runs the real run function on the case with the simulated reader(s).
 func Execute(h Hooks, c Case, log *EventLog) (out Outcome) {
+	if IsolateExec {
+		return executeIsolated(c, log)
+	}
+	return executeHere(h, c, log)
+}
+
+// ExecOne is the child side of an isolated execution.
+func ExecOne(h Hooks) int {
+	b, err := io.ReadAll(os.Stdin)
+	if err != nil {
+		fmt.Fprintln(os.Stderr, "c16sim:", err)
+		return 2
+	}
+	var c Case
+	if err := json.Unmarshal(b, &c); err != nil {
+		fmt.Fprintln(os.Stderr, "c16sim:", err)
+		return 2
+	}
+	o := executeHere(h, c, nil)
+	ob, err := json.Marshal(toWire(o))
+	if err != nil {
+		fmt.Fprintln(os.Stderr, "c16sim:", err)
+		return 2
+	}
+	fmt.Printf("\nZZOUT %s\n", ob)
+	return 0
+}
+
+// wireOutcome carries an Outcome between processes. The texts travel as bytes: what the tool wrote
+// need not be valid UTF-8, and JSON strings would replace such bytes.
+type wireOutcome struct {
+	O        Outcome
+	Stdout   []byte
+	RetErr   []byte
+	Panic    []byte
+	SinkMsgs [][]byte
+}
+
+func toWire(o Outcome) wireOutcome {
+	w := wireOutcome{O: o, Stdout: []byte(o.Stdout), RetErr: []byte(o.RetErr), Panic: []byte(o.Panic)}
+	for _, m := range o.SinkMsgs {
+		w.SinkMsgs = append(w.SinkMsgs, []byte(m))
+	}
+	w.O.Stdout, w.O.RetErr, w.O.Panic, w.O.SinkMsgs = "", "", "", nil
+	return w
+}
+
+func (w wireOutcome) outcome() Outcome {
+	o := w.O
+	o.Stdout, o.RetErr, o.Panic = string(w.Stdout), string(w.RetErr), string(w.Panic)
+	for _, m := range w.SinkMsgs {
+		o.SinkMsgs = append(o.SinkMsgs, string(m))
+	}
+	return o
+}
+
+func executeIsolated(c Case, log *EventLog) Outcome {
+	log.Add("CASE files=%d multi=%v len=%d", len(c.Files), c.Multi, len(c.Input))
+	cb, err := json.Marshal(c)
+	if err != nil {
+		panic(err)
+	}
+	ctx, cancel := context.WithTimeout(context.Background(), HangTimeout+20*time.Second)
+	defer cancel()
+	cmd := exec.CommandContext(ctx, os.Args[0], "-test.run", "^TestZZSimC16$", "-test.timeout", "0")
+	for _, e := range os.Environ() {
+		if !strings.HasPrefix(e, "ZZSIM_CMD=") {
+			cmd.Env = append(cmd.Env, e)
+		}
+	}
+	cmd.Env = append(cmd.Env, "ZZSIM_CMD="+ExecOneEnv)
+	cmd.Stdin = bytes.NewReader(cb)
+	cmd.SysProcAttr = &syscall.SysProcAttr{Pdeathsig: syscall.SIGKILL}
+	var stdout, stderr bytes.Buffer
+	cmd.Stdout, cmd.Stderr = &stdout, &stderr
+	runErr := cmd.Run()
+	if ctx.Err() != nil {
+		log.Add("RET hang")
+		return Outcome{Hang: true}
+	}
+	var out Outcome
+	found := false
+	for _, l := range strings.Split(stdout.String(), "\n") {
+		if strings.HasPrefix(l, "ZZOUT ") {
+			var w wireOutcome
+			if json.Unmarshal([]byte(l[len("ZZOUT "):]), &w) == nil {
+				out = w.outcome()
+				found = true
+			}
+		}
+	}
+	if !found {
+		es := stderr.String()
+		if len(es) > 2000 {
+			es = es[:2000]
+		}
+		out = Outcome{Panic: fmt.Sprintf("the process executing the case ended without an outcome (%v): %s", runErr, es)}
+	}
+	if out.Hang {
+		log.Add("RET hang")
+		return out
+	}
+	log.Add("RET err=%q sink=%d stdout=%d panic=%v", out.RetErr, out.Sink, len(out.Stdout), out.Panic != "")
+	return out
+}
+
+func executeHere(h Hooks, c Case, log *EventLog) (out Outcome) {
 	log.Add("CASE files=%d multi=%v len=%d", len(c.Files), c.Multi, len(c.Input))
 	var readers []*simReader
 	off := 0
